@@ -42,8 +42,13 @@ def run(ctx):
     S1 = rep.rule('C02.R2', 'failure caches nothing: insert only after the `?` (shared with C02)', floor=2)
     S2 = rep.rule('C06.R2', 'only successful reloads write (shared with C06)', floor=6)
     S3 = rep.rule('C08.R3', 'the reloader still answers when a reload panics (shared with C08)', floor=1)
+    S4 = rep.rule('C05.R1', 'an entry is recorded before the source is asked for it, so a failed read is still a dependency and its repair is noticed (shared with C05)', floor=5)
     for cfg, F in ctx.cfgs():
         hr = 'hot-reloading' in ctx.cfg_features[cfg]
+        if hr:
+            from c05 import r1 as record_before_read
+            record_before_read(S4, cfg, F)
+            S4.finish_cfg(cfg)
         insert_after_success(S1, cfg, F)
         S1.finish_cfg(cfg)
         r4(R4, cfg, F, hr)
